@@ -33,12 +33,14 @@ PROCS = 3
 # (cfg, id salt)
 RUNS = {
     "quick": [("MC_C04l_quick.cfg", ""), ("MC_C04l_quick_edge.cfg", "")],
-    "thorough": [("MC_C04l_quick.cfg", ""), ("MC_C04l_quick_edge.cfg", "b"), ("MC_C04l_thorough_chain.cfg", ""),
+    "thorough": [("MC_C04l_quick.cfg", ""), ("MC_C04l_thorough_edge.cfg", "b"), ("MC_C04l_thorough_chain.cfg", ""),
                  ("MC_C04l_thorough_mix.cfg", "c"), ("MC_C04l_thorough_portal.cfg", ""),
                  ("MC_C04l_thorough_life4.cfg", "b"), ("MC_C04l_thorough_edge4.cfg", "")],
 }
 if os.environ.get("VERIF_C04L_REWIND"):     # as-built: commits after jump_to_tick(k < tip) fork an un-truncated ledger
     RUNS["quick"].append(("MC_C04l_rewind.cfg", ""))
+if os.environ.get("VERIF_C04L_FAILED"):     # as-built: a failing commit_with_receipt applies a prefix of the merged ops in place
+    RUNS["quick"].append(("MC_C04l_failed.cfg", ""))
 
 
 def canon(o):
@@ -62,7 +64,8 @@ def script_sig(c):
     def cs(st):
         return ",".join(f"{x['r']}|{x['w']}|{x['n']}" for x in st["cands"])
     return c["preName"] + "#" + ";".join(
-        ("t:" + cs(st)) if st["kind"] == "tick" else ("a:" + cs(st)) if st["kind"] == "abort" else f"j:{st['k']}" for st in c["steps"])
+        ("t:" + cs(st)) if st["kind"] == "tick" else ("a:" + cs(st)) if st["kind"] == "abort" else ("f:" + cs(st)) if st["kind"] == "fail"
+        else f"j:{st['k']}" for st in c["steps"])
 
 
 def replay_cases(binp, tag, salt, cases):
@@ -108,6 +111,12 @@ def run_leg(ck, binp, tier, ids=None, replay=None):
     runs = []
     if replay:
         obj = json.load(open(replay))["case"]
+        if obj.get("leg") == "ledger_spec":          # a TLC invariant violation on the model: run the model again
+            res = tlc("MC_C04l", obj["cfg"], workers=2, env={"VERIF_IDS": id_ranks(binp, obj.get("salt", ""))}, timeout=7200, tags=(), out_name="c04l_replay")
+            ck.add_tlc(res)
+            if res.violation:
+                ck.violation(f"{P}spec:{obj['cfg']}:{res.violation}", "TLC invariant violated on the ledger model:\n" + res.error_text[:3000], obj)
+            return
         if obj.get("leg") != "ledger":
             return
         runs.append((obj.get("cfg", "replay"), obj.get("salt", ""), obj["cases"]))
@@ -153,7 +162,7 @@ def run_leg(ck, binp, tier, ids=None, replay=None):
     rels = {}
     sample = None
     for cfg, salt, cases in runs:
-        tag = f"c04l_{cfg.replace('.cfg', '')}_{salt or '0'}"
+        tag = re.sub(r"[^A-Za-z0-9_]", "_", f"c04l_{cfg.replace('.cfg', '')}_{salt or '0'}")
         results = replay_cases(binp, tag, salt, cases)
         R = rels.setdefault(salt, {"commit": Relation("commit_id"), "root": Relation("state_root"), "patch": Relation("patch_digest")})
         for c, r in zip(cases, results):
@@ -163,12 +172,13 @@ def run_leg(ck, binp, tier, ids=None, replay=None):
             slim = {"leg": "ledger", "cfg": cfg, "salt": salt, "cases": [c]}
             kinds = [st["kind"] for st in c["steps"]]
             rewind = "jump" in kinds
+            failed = "fail" in kinds
             aborted += "abort" in kinds
             rewinds += rewind
             if r["verdict"] == "tool_error":
                 raise ToolError(f"c04l harness: {sig}: {r.get('detail')}")
             if r["verdict"] == "violation":
-                ck.violation(f"{P}{'rewind:' if rewind else ''}{r['kind']}:{sig}", r.get("detail", ""), slim)
+                ck.violation(f"{P}{'rewind:' if rewind else 'failed_commit:' if failed else ''}{r['kind']}:{sig}", r.get("detail", ""), slim)
                 continue
             if sum(1 for t in c["ticks"] if t["patch"]) >= 2 or "abort" in kinds:
                 nontrivial += 1
@@ -183,7 +193,7 @@ def run_leg(ck, binp, tier, ids=None, replay=None):
                     slice_samples.append({"history": sig, "salt": salt, **s})
             # an aborted transaction leaves no trace, decided on the real outcome alone: histories that differ only in
             # aborted transactions must have bit-identical commit chains (tx numbers are not part of a commit id)
-            if not rewind:
+            if not rewind and not failed:
                 twin = (salt, c["preName"], tuple(",".join(f"{x['r']}|{x['w']}|{x['n']}" for x in st["cands"]) for st in c["steps"] if st["kind"] == "tick"))
                 seen = twins.setdefault(twin, (r["commits"], sig, c))
                 if seen[0] != r["commits"]:
@@ -203,17 +213,18 @@ def run_leg(ck, binp, tier, ids=None, replay=None):
                 ckey = canon(norm(t["canon"]))
                 pkey = canon({"ops": t["patch"], "ins": norm(t["ins"]), "outs": norm(t["outs"])})
                 key = h(key, ckey, pkey)
-                R["commit"].add(key, commit, sig)
-                R["root"].add(h(ckey), root, sig)
-                R["patch"].add(h(pkey), patch, sig)
+                R["commit"].add(key, commit, (sig, c))
+                R["root"].add(h(ckey), root, (sig, c))
+                R["patch"].add(h(pkey), patch, (sig, c))
             if sample is None and "abort" in kinds and sum(1 for t in c["ticks"] if t["patch"]) >= 2:
                 sample = {"history": sig, "commits": r["commits"], "slices_checked": r.get("slices"), "jumps": r.get("jumps")}
     for salt, R in rels.items():
         for rel in R.values():
             for kind, ws in rel.violations():
-                ck.violation(f"{P}hash_relation:{rel.name}:{kind}", f"salt '{salt}': {rel.name} is not a one-to-one function of the model's key: {ws}",
-                             {"leg": "ledger_relation", "salt": salt, "relation": rel.name, "kind": kind, "witnesses": [w for _, w in ws]})
-    if not replay:
+                ck.violation(f"{P}hash_relation:{rel.name}:{kind}",
+                             f"salt '{salt}': {rel.name} is not a one-to-one function of the model's key: {[(k, w[0]) for k, w in ws]}",
+                             {"leg": "ledger", "cfg": "hash_relation", "salt": salt, "cases": [w[1] for _, w in ws]})
+    if not replay and not os.environ.get("VERIF_C04L_ONLY"):
         if hist == 0 or jumps == 0 or slices == 0 or wl == 0:
             raise ToolError(f"ledger leg vacuous: histories={hist} jumps={jumps} slices={slices} worldline applies={wl}")
         if aborted == 0:
